@@ -181,8 +181,8 @@ Definition validate_file (st : vstate) (f : str * outcome) : vstate :=
   let '(fn, o) := f in
   match o with
   | ParseFailed =>
-      (* except Exception: echo; continue   -- [errors] is NOT incremented *)
-      mk_vstate (echoed st ++ [parse_failed_line fn]) (validation_count st) (errors st)
+      (* except Exception: echo; errors += 1; continue *)
+      mk_vstate (echoed st ++ [parse_failed_line fn]) (validation_count st) (S (errors st))
   | Validated [] =>
       mk_vstate (echoed st ++ [validated_line fn]) (S (validation_count st)) (errors st)
   | Validated msgs => echo_messages fn msgs st
@@ -190,6 +190,9 @@ Definition validate_file (st : vstate) (f : str * outcome) : vstate :=
 
 Definition validate_loop (files : list (str * outcome)) : vstate :=
   fold_left validate_file files (mk_vstate [] O O).
+
+(* the argument of the final sys.exit: min(errors, 255) *)
+Definition validate_exit_arg (st : vstate) : N := N.min (N.of_nat (errors st)) 255.
 
 (* cli.validate after click parsed [mapfiles] and get_mapfiles produced the
    matched files with their outcomes.  Result: the echoed lines and the
@@ -200,7 +203,7 @@ Definition validate_cmd (mapfiles : list str) (files : list (str * outcome)) : l
   | _ =>
       let st := validate_loop files in
       (echoed st ++ [summary_line (length files) (validation_count st)],
-       exit_status (N.of_nat (errors st)))          (* sys.exit(errors) *)
+       exit_status (validate_exit_arg st))          (* sys.exit(min(errors, 255)) *)
   end.
 
 Definition validate_status (files : list (str * outcome)) : N := snd (validate_cmd [] files).
